@@ -164,8 +164,9 @@ func runC18Case(c *c18Case) c18Res {
 	type cli struct {
 		kind string
 		ch   *lime.ClientChannel
-		est  bool
-		sid  string
+		est     bool
+		dropped bool // the client closed its own connection: it does not wait for a finished session
+		sid     string
 	}
 	clis := []*cli{}
 	pending := []net.Conn{}
@@ -212,6 +213,21 @@ func runC18Case(c *c18Case) c18Res {
 						sc()
 					}
 					time.Sleep(50 * time.Millisecond) // let the server's receiver run into the full buffer
+				} else {
+					res.Problems = append(res.Problems, fmt.Sprintf("harness: establish failed: %v", err))
+				}
+			case "est-drop":
+				// established, then the client's connection is gone without a word: the session did reach the
+				// established state, so both callbacks are due — Finished too
+				ses, err := cl.ch.EstablishSession(ctx, lime.NoneCompressionSelector, lime.NoneEncryptionSelector,
+					lime.Identity{Name: guestUUID, Domain: "verif.local"}, lime.GuestAuthenticator, "i")
+				if err == nil && ses.State == lime.SessionStateEstablished {
+					cl.est = true
+					cl.dropped = true
+					cl.sid = ses.ID
+					res.Established++
+					_ = t.Close()
+					time.Sleep(30 * time.Millisecond)
 				} else {
 					res.Problems = append(res.Problems, fmt.Sprintf("harness: establish failed: %v", err))
 				}
@@ -340,7 +356,7 @@ func runC18Case(c *c18Case) c18Res {
 	}
 	// every established client observes finished
 	for _, cl := range clis {
-		if !cl.est {
+		if !cl.est || cl.dropped {
 			continue
 		}
 		select {
@@ -452,7 +468,7 @@ func genC18Case(e *Env) *c18Case {
 		c.Clients = append(c.Clients, "est-closing")
 	}
 	if c.CloseAt == "clients" {
-		kinds := []string{"est", "est", "half", "dial", "bad", "est-flood", "half-upgrade"}
+		kinds := []string{"est", "est", "half", "dial", "bad", "est-flood", "half-upgrade", "est-drop"}
 		m := 1 + r.Intn(3)
 		for i := 0; i < m; i++ {
 			c.Clients = append(c.Clients, kinds[r.Intn(len(kinds))])
@@ -530,7 +546,9 @@ func init() {
 					&c18Case{Listeners: []string{"inproc"}, Clients: []string{"est-flood"}, CloseAt: "clients"},
 					&c18Case{Listeners: []string{"tcp"}, Clients: []string{"est-flood", "est"}, CloseAt: "clients"},
 					&c18Case{Listeners: []string{"ws"}, Clients: []string{"est", "half-upgrade"}, CloseAt: "clients"},
-					&c18Case{Listeners: []string{"ws", "inproc"}, Clients: []string{"half-upgrade", "est"}, CloseAt: "clients", JitterUs: 200})
+					&c18Case{Listeners: []string{"ws", "inproc"}, Clients: []string{"half-upgrade", "est"}, CloseAt: "clients", JitterUs: 200},
+					&c18Case{Listeners: []string{"inproc"}, Clients: []string{"est-drop", "est"}, CloseAt: "clients"},
+					&c18Case{Listeners: []string{"tcp"}, Clients: []string{"est", "est-drop"}, CloseAt: "clients"})
 			}
 			n := e.N(240, 4000)
 			for i := 0; i < n; i++ {
